@@ -230,7 +230,7 @@ theorem argInvalid_coerceArg (T : Table) (hw : wfTable2 T = true)
     have constCase : noVars dv = true → False := by
       intro hnv
       obtain ⟨⟨c, hc⟩, _⟩ := lit_coerce T defs dv a.ty.gql _ hlk hnv
-      have := coerce_valid T hw _ _ c (coerce_mono T _ _ _ hc)
+      have := coerce_valid Defects.none.nonObjectPassesInputObject T hw _ _ c (coerce_mono T _ _ _ hc)
       simp [toConst_const raw dv hnv, this] at hinv
     cases dv with
     | var n =>
@@ -255,7 +255,7 @@ theorem argInvalid_coerceArg (T : Table) (hw : wfTable2 T = true)
             simp only [isValid, Bool.not_eq_false'] at hinv
             simp [coerceArg, hl, hlv, hinv]
           · have hc' := usage_coerce T true vd a.ty.gql _ v c hlk hv hc
-            have := coerce_valid T hw _ _ c hc'
+            have := coerce_valid Defects.none.nonObjectPassesInputObject T hw _ _ c hc'
             rw [this] at hinv; cases hinv
     | null => exact (constCase hfl).elim
     | int i => exact (constCase hfl).elim
@@ -421,7 +421,6 @@ structure ReqHyp (T : Table) (op : OpDef) (raw : List (String × GValue)) : Prop
   hflat : flatOp op = true
   hsmall : ∀ p ∈ raw, intsSmall p.2 = true
   hkeys : ∀ p ∈ raw, distinctKeys p.2 = true
-  hhole : ∀ vd ∈ op.vars, ∀ v, lookup raw vd.name = some v → noHole T vd.ty v = true
 
 theorem ReqHyp.varCtx {T : Table} {op : OpDef} {raw : List (String × GValue)} (H : ReqHyp T op raw)
     (vars : List (String × GValue)) (hcv : coerceVars T op.vars raw = some vars) :
@@ -476,32 +475,34 @@ theorem ReqHyp.root_invalid {T : Table} {op : OpDef} {raw : List (String × GVal
   simp [specOf, hsig, fieldArgs, coerceArgs_none T vars r.2.2 sig.args a ha this]
 
 theorem ReqHyp.defaultsValid {T : Table} {op : OpDef} {raw : List (String × GValue)} (H : ReqHyp T op raw) :
-    varDefaultsValid T op.vars = true := by
+    ∀ np, varDefaultsValid np T op.vars = true := by
+  intro np
   simp only [varDefaultsValid, List.all_eq_true]
   intro vd hvd
   cases hd : vd.default with
   | none => rfl
   | some d =>
     obtain ⟨⟨c, hc⟩, _⟩ := (docOk_vars T op H.hdoc).2 vd hvd d hd
-    exact coerce_valid T H.hw d vd.ty c (coerce_mono T _ _ _ hc)
+    exact coerce_valid np T H.hw d vd.ty c (coerce_mono T _ _ _ hc)
 
 theorem ReqHyp.valuesValid {T : Table} {op : OpDef} {raw : List (String × GValue)} (H : ReqHyp T op raw)
     (vars : List (String × GValue)) (hcv : coerceVars T op.vars raw = some vars) :
-    varValuesValid T op.vars raw = true := by
+    ∀ np, varValuesValid np T op.vars raw = true := by
+  intro np
   simp only [varValuesValid, List.all_eq_true]
   intro vd hvd
   obtain ⟨h1, h2⟩ := coerceVars_some T raw op.vars vars hcv vd hvd
   cases hl : lookup raw vd.name with
   | some v =>
     obtain ⟨c, hc⟩ := h1 v hl
-    exact coerce_valid T H.hw v vd.ty c hc
+    exact coerce_valid np T H.hw v vd.ty c hc
   | none =>
     cases hd : vd.default with
     | some d => simp
     | none => simp [h2 hl hd]
 
 theorem ReqHyp.vars_exist {T : Table} {op : OpDef} {raw : List (String × GValue)} (H : ReqHyp T op raw)
-    (hv : varValuesValid T op.vars raw = true) : ∃ vars, coerceVars T op.vars raw = some vars := by
+    (hv : varValuesValid false T op.vars raw = true) : ∃ vars, coerceVars T op.vars raw = some vars := by
   apply coerceVars_exists
   simp only [varValuesValid, List.all_eq_true] at hv
   intro vd hvd
@@ -509,7 +510,7 @@ theorem ReqHyp.vars_exist {T : Table} {op : OpDef} {raw : List (String × GValue
   refine ⟨?_, ?_, ?_⟩
   · intro v hl
     simp only [hl] at this
-    exact valid_coerce T v vd.ty this (H.hsmall _ (lookup_mem _ _ _ hl)) (H.hhole vd hvd v hl)
+    exact valid_coerce T v vd.ty this (H.hsmall _ (lookup_mem _ _ _ hl))
   · intro _ d hd
     exact ((docOk_vars T op H.hdoc).2 vd hvd d hd).1
   · intro hl hd
@@ -519,12 +520,13 @@ theorem ReqHyp.request_none {T : Table} {op : OpDef} {raw : List (String × GVal
     (hcv : coerceVars T op.vars raw = none) :
     (run Defects.none T op raw).status = .reqerr ∧
     (run Defects.none T op raw).fields = (rootFields op).map (fun f => (f.1, Outcome.notInvoked)) := by
-  have hC : varValuesValid T op.vars raw = false := by
-    cases h : varValuesValid T op.vars raw with
+  have hnp : Defects.none.nonObjectPassesInputObject = false := rfl
+  have hC : varValuesValid false T op.vars raw = false := by
+    cases h : varValuesValid false T op.vars raw with
     | false => rfl
     | true => obtain ⟨vars, hv⟩ := H.vars_exist h; rw [hv] at hcv; cases hcv
   have hD : Defects.none.varValueNotCoerced = false := rfl
-  simp [run, hC, hD]
+  simp [run, hnp, hC, hD]
 
 theorem ReqHyp.request_some {T : Table} {op : OpDef} {raw : List (String × GValue)} (H : ReqHyp T op raw)
     (vars : List (String × GValue)) (hcv : coerceVars T op.vars raw = some vars) :
